@@ -186,6 +186,8 @@ def parseMeta (rest : Bytes) (status : Int) (ps : ParseSt) : Ev × Bytes × Int 
     | (none, r) => (invalidEv, r, status, ps)
     | (some len, r) =>
       if len > r.length then (invalidEv, r, status, ps)
+      -- the internal loop-stack / trigger (one byte) and raw-register (two bytes) events read their payload: a file must carry it
+      else if ((evtype == 0xE4 || evtype == 0xE7) && len < 1) || (evtype == 0xE3 && len < 2) then (invalidEv, r, status, ps)
       else
         let (ev, status') := metaEvent evtype (r.take len) status
         (ev, r.drop len, status', ps)
@@ -352,7 +354,7 @@ def noteSpecial (b : BuildSt) (ev : Ev) (absPos : Nat) : BuildSt :=
           { b with stack := b.stack.modify b.stackLevel.toNat fun (e : StackEntry) => { e with stop := absPos } }
         else if b.stack.isEmpty then { b with stack := [{ stop := absPos }] }
         else { b with stack := b.stack.modify 0 fun (e : StackEntry) => { e with stop := absPos } }
-      { b with stackLevel := b.stackLevel - 1 }
+      { b with stackLevel := if b.stackLevel - 1 < -1 then -1 else b.stackLevel - 1 }
   else b
 
 /-- clear the delay of the last row of a track (ENABLE_END_SILENCE_SKIPPING) -/
@@ -813,6 +815,9 @@ def tracksPass (isSeek : Bool) : Nat → Nat → RowRes → RowRes
           if r.doJump then r else tracksPass isSeek fuel (tk + 1) r
       else tracksPass isSeek fuel (tk + 1) r
 
+/-- LoopState::stackDown: the level never sinks below -1 ("no loop open") -/
+def stackDown (lvl : Int) : Int := if lvl - 1 < -1 then -1 else lvl - 1
+
 def stackUpN : Nat → Loop → Position → Loop
   | 0, l, _ => l
   | n + 1, l, p =>
@@ -824,7 +829,7 @@ def stackBreakN : Nat → Loop → Loop
   | 0, l => l
   | n + 1, l =>
     let (l, i) := l.curIdx
-    stackBreakN n { l with stack := l.stack.modify i (fun (e : RtStack) => { e with loops := 0, infinity := false }), stackLevel := l.stackLevel - 1 }
+    stackBreakN n { l with stack := l.stack.modify i (fun (e : RtStack) => { e with loops := 0, infinity := false }), stackLevel := stackDown l.stackLevel }
 
 /-- the `while(caughLoopStackEnds > 0)` block; returns the state and outputs (it always ends with `return true`) -/
 def stackEndsN : Nat → Seq → Rat → List Out → Seq × List Out
@@ -844,8 +849,8 @@ def stackEndsN : Nat → Seq → Rat → List Out → Seq × List Out
       let loops := e.loops - 1
       let s := { s with loop := { s.loop with stack := s.loop.stack.modify i fun (en : RtStack) => { en with loops := loops } } }
       if loops > 0 then ({ s with cur := e.startPos, loop := { s.loop with skipStackStart := true } }, outs ++ allNotesOff)
-      else stackEndsN n { s with loop := { s.loop with stackLevel := s.loop.stackLevel - 1 } } endsTime outs
-    else stackEndsN n { s with loop := { s.loop with stackLevel := s.loop.stackLevel - 1 } } endsTime outs
+      else stackEndsN n { s with loop := { s.loop with stackLevel := stackDown s.loop.stackLevel } } endsTime outs
+    else stackEndsN n { s with loop := { s.loop with stackLevel := stackDown s.loop.stackLevel } } endsTime outs
 
 /-- the decision taken on arrival at the loop end or at the end of the song (tail of processEvents): loop-end hook,
     All-Notes-Off on the 16 channels, then either the end of the song, or a jump to the begin / to the loop start -/
